@@ -49,6 +49,7 @@ type run struct {
 	inTx         bool
 	stalled      map[*simmongo.Pending]int // database commands the simulated database is slow to answer
 	rd           *reader                   // the read-only observer, if the plan has one
+	holdNext     map[string]int            // client name: its next push-pull answer is held back for that many events
 	whileStalled func() bool               // called (until it says it is done) when only commands the database sits on are left
 	cur          *curSync                  // the exchange event being driven (late joiners are added to it)
 	evSlow       int                       // this event: commands during which the whole database was slow (time jumped)
@@ -784,6 +785,15 @@ func (r *run) pump(f *focus, g *kernel.Rng, faults []MongoFault, stopAnswered bo
 			}
 			r.answerCmd(it.p, faults)
 		case "resp":
+			if n := r.holdNext[it.c.client]; n > 0 && it.c.method == "ProcessPushPull" {
+				// the network is slow on this answer: it arrives after the next n events (other
+				// exchanges of the same client - a pull caused by a notification - may overtake it)
+				delete(r.holdNext, it.c.client)
+				r.held = append(r.held, &heldResp{c: it.c, after: n})
+				r.fault("resp-late")
+				r.logf("  response of %s to %s is held back for %d events", callOwner(it.c), it.c.client, n)
+				break
+			}
 			r.logf("  deliver response of %s to %s", callOwner(it.c), it.c.client)
 			r.trace.Str("resp")
 			r.deliverResp(it.c, false)
